@@ -206,7 +206,7 @@ func CheckTableNamesMatch(parsedQuery sqlparser.Statement, setOfTables map[strin
 		atLeastOneTableNameMatch, allTableNamesMatch = checkTableExprsMatch(query.From, setOfTables)
 		break
 	case *sqlparser.Insert:
-		if setOfTables[query.Table.Name.String()] {
+		if setOfTables[query.Table.Name.String()] || setOfTables[query.Table.Name.RawValue()] {
 			atLeastOneTableNameMatch = true
 			allTableNamesMatch = true
 		} else {
@@ -244,13 +244,26 @@ func checkTableExprsMatch(tables sqlparser.TableExprs, setOfTables map[string]bo
 	return oneTableMatch, allTablesMatch
 }
 
+// rawTableName returns the (qualified) table name without identifier quotes, so that a table
+// rule written as a plain name also covers the quoted spelling of the same table.
+func rawTableName(expr sqlparser.SimpleTableExpr) string {
+	tableName, ok := expr.(sqlparser.TableName)
+	if !ok {
+		return ""
+	}
+	if tableName.Qualifier.IsEmpty() {
+		return tableName.Name.RawValue()
+	}
+	return tableName.Qualifier.RawValue() + "." + tableName.Name.RawValue()
+}
+
 func checkTableExprMatch(table sqlparser.TableExpr, setOfTables map[string]bool) (bool, bool) {
 	oneTableMatch := false
 	allTablesMatch := false
 
 	switch tbl := table.(type) {
 	case *sqlparser.AliasedTableExpr:
-		if setOfTables[sqlparser.String(tbl.Expr)] {
+		if setOfTables[sqlparser.String(tbl.Expr)] || setOfTables[rawTableName(tbl.Expr)] {
 			oneTableMatch = true
 			allTablesMatch = true
 		}
